@@ -34,6 +34,9 @@ func literalValueFocusSchema() *schema.BodySchema {
 		"lv_tuple":  lv(cty.TupleVal([]cty.Value{cty.StringVal("a"), cty.NumberIntVal(1), cty.True})),
 		"lv_obj":    lv(cty.ObjectVal(map[string]cty.Value{"a": cty.StringVal("x"), "n": cty.NumberIntVal(1)})),
 		"lv_str":    lv(cty.StringVal("fixed")),
+		// sets whose elements are objects / tuples (types that Go's == cannot compare)
+		"lv_oset": lv(cty.SetVal([]cty.Value{cty.ObjectVal(map[string]cty.Value{"name": cty.StringVal("web")})})),
+		"lv_tset": lv(cty.SetVal([]cty.Value{cty.TupleVal([]cty.Value{cty.StringVal("tcp"), cty.NumberIntVal(80)})})),
 		"lv_num":    lv(cty.NumberIntVal(42)),
 		"lv_bool":   lv(cty.True),
 		"lv_nested": lv(cty.ListVal([]cty.Value{cty.SetVal([]cty.Value{cty.StringVal("in")})})),
@@ -71,6 +74,8 @@ var literalWrites = map[string][]string{
 	"lv_map":    {`{ k = "v" }`, `{ k = "v", "q k" = "w" }`, `{ k = 1 }`, `{ other = "v" }`, `{ k = ["v"] }`, `{ (var.k) = "v" }`, `{ k = null }`, `[]`},
 	"lv_tuple":  {`["a", 1, true]`, `["a", 1]`, `[1, "a", true]`, `["a", 1, true, "more"]`, `[null, 1, true]`},
 	"lv_obj":    {`{ a = "x", n = 1 }`, `{ a = "x" }`, `{ a = 1, n = "x" }`, `{ n = 1, a = "x", z = 0 }`, `{ a = null }`},
+	"lv_oset":   {`[{ name = "web" }]`, `[{ name = "other" }]`, `[{ name = "web" }, { name = "web" }]`, `[{ name = 1 }]`, `["web"]`, `[{}]`},
+	"lv_tset":   {`[["tcp", 80]]`, `[["udp", 1]]`, `[["tcp"]]`, `[[80, "tcp"]]`, `["tcp"]`},
 	"lv_str":    {`"fixed"`, `"other"`, `1`, `true`, `"fix${"ed"}"`, "<<EOT\nfixed\nEOT", `null`},
 	"lv_num":    {`42`, `41`, `"42"`, `true`, `42.0`, `null`},
 	"lv_bool":   {`true`, `false`, `"true"`, `1`, `null`},
